@@ -313,7 +313,10 @@ def strategy():
     from hypothesis import strategies as st
 
     f = forestgen.cases(max_len=40, queries=True, load=False)
-    return st.one_of(f, f, map_strategy())
+    # a quarter of the cases exercise one interface only, densely
+    lists = forestgen.cases(max_len=30, queries=True, load=False, only=["list.", "listq.", "setparent"], kinds=["mod"])
+    sets = forestgen.cases(max_len=30, queries=True, load=False, only=["set.", "setq.", "setparent"])
+    return st.one_of(f, f, f, lists, lists, sets, map_strategy(), map_strategy())
 
 
 def run_job(job):
